@@ -337,7 +337,7 @@ static void judge(Ctx& ctx, const Case& c, bool from_replay) {
         break; }
     }
   } catch (const std::exception& ex) {
-    fail("C16." + an, { "exception" }, std::string("exception on in-range input: ") + ex.what());
+    fail(api == A_CD_PATHS ? "C16.clipperd_closed_paths" : api == A_CD_TREE ? "C16.clipperd_tree" : "C16." + an, { "exception" }, std::string("exception on in-range input: ") + ex.what());
   }
   if (skipped) { ctx.count("cases_rejected_by_premise"); if (!from_replay) ctx.note_case(c, false); return; }
   ctx.count("comparisons_" + an, compared);
